@@ -1460,6 +1460,24 @@ func c16GenFaults(rt *rapid.T) *c16Case {
 			cs.Files = append(cs.Files, c16File{Name: name, Role: "nosite", Src: c16Src(i, []string{"other(0)"}, pad)})
 		}
 	}
+	if rapid.IntRange(0, 7).Draw(rt, "longName") == 0 {
+		// A base name so long that no temporary sibling ".<name>.gopatch-<n>"
+		// can be created (255-byte limit). The run is judged only if the
+		// fault-free run copes with it; whatever way the file is then written,
+		// a write that fails or is cut short must not leave it torn.
+		i := rapid.IntRange(0, len(cs.Files)-1).Draw(rt, "longNameAt")
+		old := cs.Files[i].Name
+		dir := ""
+		if k := strings.LastIndex(old, "/"); k >= 0 {
+			dir = old[:k+1]
+		}
+		cs.Files[i].Name = dir + strings.Repeat("L", 236) + ".go"
+		for j := range names {
+			if names[j] == old {
+				names[j] = cs.Files[i].Name
+			}
+		}
+	}
 	cs.Args = c16DrawArgs(rt, names)
 	return cs
 }
